@@ -49,7 +49,22 @@ def gen_cfg(rng, small=True):
         nseg = len(cfg["a_slopes"])
         cfg["nbins"] = {"MS": [rng.randint(2, 6) for _ in range(nseg)] if rng.random() < 0.5 else rng.randint(2 * nseg, 6 * nseg),
                         "WD": rng.randint(2, 8), "BH": rng.randint(2, 8)}
+    # how the IMF object treats masses outside its range must not matter inside it
+    cfg["ext"] = rng.choice(["from_powerlaw", "from_powerlaw", "zeros", "extrapolate", "extrapolate", "raise"])
     return cfg
+
+
+def build(cfg, **ode):
+    """the real model, either through `from_powerlaw` or from an explicit IMF object with the chosen out-of-range mode"""
+    ext = cfg.get("ext", "from_powerlaw")
+    with real.recording_ode(**ode):
+        if ext == "from_powerlaw":
+            return gen.build(cfg)
+        from ssptools.masses import PowerLawIMF
+        imf = PowerLawIMF(cfg["m_breaks"], cfg["a_slopes"], N0=cfg["N0"], ext=ext)
+        with warnings.catch_warnings():
+            warnings.simplefilter("ignore")
+            return evolve_mf.EvolvedMF(imf, cfg["nbins"], cfg["FeH"], cfg["tout"], cfg["esc_rate"], N0=cfg["N0"], **cfg["kw"])
 
 
 def worker(job):
@@ -57,9 +72,8 @@ def worker(job):
     cfg = job["cfg"]
     res = {"cfg": cfg}
     try:
-        f0 = gen.build(cfg)
-        with real.recording_ode(**TIGHT):
-            f1 = gen.build(cfg)
+        f0 = build(cfg)
+        f1 = build(cfg, **TIGHT)
     except Exception as e:
         res["error"] = f"{type(e).__name__}: {e}"[:200]
         return res
@@ -89,6 +103,8 @@ def worker(job):
     elif "m_breaks" in getattr(bh, "keywords", {}):
         cells |= set(map(float, bh.keywords["m_breaks"]))
     res["cells"] = sorted(c for c in cells if lo < c < hi)
+    res["knots"] = sorted({float(im.WD_mi[1]), float(im.BH_mi[0])} | (set(map(float, bh.get_knots())) if hasattr(bh, "get_knots") else
+                                                                      set(map(float, bh.keywords.get("m_breaks", [])))))
     # the oracle's samples of the real IFMR: per age, Gauss-Legendre nodes in ln m above the turn-off
     res["oracle"] = [oracle(cfg, res, im, t) for t in cfg["tout"]]
     return res
@@ -126,6 +142,8 @@ def oracle(cfg, res, im, t, ncell=6000):
         lo = max(mto, ms[0])
         pts = set(np.exp(np.linspace(math.log(lo), math.log(ms[-1]), ncell)).tolist()) | {x for x in ms if lo < x < ms[-1]}
         pts |= {x for x in mbk if lo < x < ms[-1]}
+        # IFMR knots and class thresholds: a tabulated relation may peak above a remnant-bin edge between two grid points
+        pts |= {x for x in res.get("knots", []) if lo < x < ms[-1]}
         pts = np.array(sorted(pts))
 
         def key(m):
